@@ -449,7 +449,26 @@ func genBlockwiseXfer(g *gen, repo string) {
 	//    (the reassembly message is owned by the cache until the transfer ends) and builds its close list through
 	//    appendToClose only.
 	{
-		want := map[string]string{"Do": "expire=time.Now().Add(b.expiration)", "startSendingMessage": "expire=time.Now().Add(b.expiration)",
+		// Do: the request's entry lives as long as the call - `expire, _ := r.Context().Deadline()` (the zero time without a
+		// deadline) together with the deferred Delete of the entry, as a statement of Do's body
+		{
+			fd := funcDecl(f, "BlockWise", "Do")
+			dl, del := false, false
+			for _, st := range fd.Body.List {
+				if a, is := st.(*ast.AssignStmt); is && len(a.Lhs) == 2 && len(a.Rhs) == 1 &&
+					c04Str(a.Lhs[0]) == "expire" && c04Str(a.Lhs[1]) == "_" && c04Str(a.Rhs[0]) == "r.Context().Deadline()" {
+					dl = true
+				}
+				if d, is := st.(*ast.DeferStmt); is && c04Str(d.Call.Fun) == "b.sendingMessagesCache.Delete" && len(d.Call.Args) == 1 &&
+					c04Str(d.Call.Args[0]) == "r.Token().Hash()" {
+					del = true
+				}
+			}
+			if !dl || !del {
+				fail("Do: `expire, _ := r.Context().Deadline()` with `defer b.sendingMessagesCache.Delete(r.Token().Hash())` not found (lifetime of the request's cache entry)")
+			}
+		}
+		want := map[string]string{"startSendingMessage": "expire=time.Now().Add(b.expiration)",
 			"handleObserveResponse": "validUntil:=time.Now().Add(b.expiration)", "getValidUntil": "validUntil:=time.Now().Add(b.expiration)"}
 		for fn, w := range want {
 			fd := funcDecl(f, "BlockWise", fn)
@@ -498,8 +517,8 @@ func genBlockwiseXfer(g *gen, repo string) {
 			}
 			return true
 		})
-		if nowAdds != 4 || elems != 5 {
-			fail("expected 4 `time.Now().Add(b.expiration)` and 5 cache.NewElement calls, found %d and %d", nowAdds, elems)
+		if nowAdds != 3 || elems != 5 {
+			fail("expected 3 `time.Now().Add(b.expiration)` and 5 cache.NewElement calls, found %d and %d", nowAdds, elems)
 		}
 		gc := funcDecl(f, "BlockWise", "getCachedReceivedMessage")
 		appends, rels := 0, 0
@@ -588,7 +607,8 @@ func genBlockwiseXfer(g *gen, repo string) {
 	fmt.Fprintf(&b, "/-- processReceivedMessage / getCachedReceivedMessage: the per-entry guard is acquired before the cached message is touched and released only by the deferred close function, after `next(w, cachedReceivedMessage)` has returned (no earlier release, no go statement) -/\ndef guardReleasedOnlyAfterNext : Bool := true\n")
 	fmt.Fprintf(&b, "/-- tcp/udp/dtls servers and clients: `createBlockWise` is a function literal that returns `blockwise.New(…)`, i.e. every connection gets its own layer (its own pair of caches) -/\ndef layerPerConnection : Bool := true\n")
 	fmt.Fprintf(&b, "/-- udp/server Session.Run reads into `make([]byte, s.mtu)`: a datagram longer than the maximum message size keeps its length and is refused, not cut -/\ndef datagramReadBufferIsMTU : Bool := true\n")
-	fmt.Fprintf(&b, "/-- every deadline of a cache entry is the context's deadline or `time.Now().Add(b.expiration)`: finite, also for an expiration of 0 -/\ndef deadlinesAreNowPlusExpiration : Bool := true\n")
+	fmt.Fprintf(&b, "/-- every deadline of a cache entry other than Do's request entry is the context's deadline or `time.Now().Add(b.expiration)`: finite, also for an expiration of 0 -/\ndef deadlinesAreNowPlusExpiration : Bool := true\n")
+	fmt.Fprintf(&b, "/-- Do: the entry of the request lives as long as the call: `expire, _ := r.Context().Deadline()` (zero time = no expiry without a deadline) and the deferred Delete of the entry are statements of Do's body -/\ndef doEntryLivesAsLongAsTheCall : Bool := true\n")
 	fmt.Fprintf(&b, "/-- the caches own their messages: no onExpire callback and no path of getCachedReceivedMessage releases a message; the close list only releases guards -/\ndef cachesOwnTheirMessages : Bool := true\n")
 	fmt.Fprintf(&b, "/-- getPayloadFromCachedReceivedMessage: on an ETag change the cached message takes over all options and the code of the new block (false: only the ETag) -/\ndef restartTakesNewOptions : Bool := %s\n", c04Bool(restartTakesOptions))
 	fmt.Fprintf(&b, "/-- udp/client: DefaultConfig BlockwiseTransferTimeout (ns), BlockwiseSZX, MaxMessageSize -/\ndef defaultTransferTimeoutNs : Nat := %d\ndef defaultSZX : Nat := %d\ndef defaultMaxMessageSize : Nat := %d\n",
